@@ -368,6 +368,23 @@ def fmt_prefix(s):
     return None
 
 
+def fmt_pieces(s):
+    """Pieces of a compact format_args byte string: literal strings and None for an argument."""
+    out = []
+    i = 0
+    while i < len(s):
+        n = ord(s[i])
+        if n == 0:
+            break
+        if n >= 0x80:
+            out.append(None)
+            i += 1
+            continue
+        out.append(s[i + 1:i + 1 + n])
+        i += 1 + n
+    return out
+
+
 def rule_x3(F):
     r = RuleResult("C19.X3", "one test-name prefix everywhere; it cannot be spelled in a script; discovery by last segment, sorted", floor=5)
     sites = {}
@@ -377,6 +394,22 @@ def rule_x3(F):
         "mir test()": ["mir::lower::Lowerer::<'r>::test"],
         "get_tests": [p for p in F.paths() if p.startswith("codegen::testing::get_tests")],
     }
+    # where the item tree is lowered, the naming of a test item may sit in a private helper that `tree` calls per declaration
+    tb = F.body("mir::lower::Lowerer::<'r>::tree")
+    if tb is not None and tb.mir:
+        seen_ = set(wanted["mir tree()"])
+        frontier = [tb]
+        for _ in range(2):
+            nxt = []
+            for bb in frontier:
+                cs = {mir.callee(t) or "" for _, t in mir.calls(bb)} | {st["rv"].get("def") for blk in bb.blocks for st in blk["stmts"] if st["k"] == "assign" and st["rv"]["k"] == "agg" and st["rv"].get("ak") == "closure"}
+                for c in cs:
+                    hb = F.body(c or "")
+                    if hb is not None and hb.mir and c not in seen_ and c.startswith("mir::lower::") and hir.last(c.split("::{closure")[0]) not in ("test", "expr", "block", "function", "stmt"):
+                        seen_.add(c)
+                        nxt.append(hb)
+            frontier = nxt
+        wanted["mir tree()"] = sorted(seen_)
     for label, ps in wanted.items():
         vals = set()
         for p in ps:
@@ -389,6 +422,17 @@ def rule_x3(F):
                         pre = fmt_prefix(n["v"])
                         if pre and "#" in pre and "test" in pre:
                             vals.add(pre)
+                        pcs = fmt_pieces(n["v"])
+                        if len(pcs) >= 2 and pcs[0] is None and isinstance(pcs[1], str) and pcs[1].startswith("#"):
+                            # `format!("{prefix}#{ident}")`: the prefix is an argument - the identifier-like literals handed to it in
+                            # this function (or the function the closure belongs to)
+                            fam = [b] + [F.body(q) for q in F.paths() if q.startswith(p.split("::{closure")[0] + "::{closure") or q == p.split("::{closure")[0]]
+                            for fb_ in fam:
+                                if fb_ is None or not fb_.hir:
+                                    continue
+                                for n2 in hir.walk(fb_.hir.get("value") or {}):
+                                    if n2.get("k") == "lit" and n2.get("lk") == "str" and isinstance(n2.get("v"), str) and n2["v"].isidentifier() and "test" in n2["v"]:
+                                        vals.add(n2["v"] + pcs[1])
                     elif n.get("lk") == "str" and n["v"].endswith("#") and "test" in n["v"]:
                         vals.add(n["v"])
             if label == "get_tests":
